@@ -43,7 +43,11 @@ type Rec struct {
 	F float64
 	B bool
 	A []string
+	T NamedStr // a field of a named string type
 }
+
+// NamedStr is a named string type (struct accessor vs JSON accessor must agree on it).
+type NamedStr string
 
 // Fields are the queryable contents of a record.
 type Fields struct {
@@ -52,6 +56,7 @@ type Fields struct {
 	F float64  `json:"F"`
 	B bool     `json:"B"`
 	A []string `json:"A"`
+	T string   `json:"T"`
 }
 
 var keyPool = []string{"a", "ab", "b/c", "b/d", "b/de", "bc", "c/x/y", "c/x/z", "c/xy", "d"}
@@ -137,7 +142,7 @@ func genCond(rng *rand.Rand, depth int) *Cond {
 		return &Cond{Op: ops[rng.IntN(len(ops))], Key: "F", FVal: floatPool[rng.IntN(len(floatPool))]}
 	case 2:
 		ops := []string{"sameas", "contains", "startswith", "endswith"}
-		return &Cond{Op: ops[rng.IntN(len(ops))], Key: "S", SVal: strPool[rng.IntN(len(strPool))]}
+		return &Cond{Op: ops[rng.IntN(len(ops))], Key: []string{"S", "S", "T"}[rng.IntN(3)], SVal: strPool[rng.IntN(len(strPool))]}
 	case 3:
 		return &Cond{Op: "in", Key: "S", List: []string{strPool[rng.IntN(len(strPool))], strPool[rng.IntN(len(strPool))]}}
 	case 4:
@@ -175,6 +180,13 @@ func (c *Cond) build() query.Condition {
 	return query.Where(c.Key, strOps[c.Op], c.SVal)
 }
 
+func (c *Cond) strField(f Fields) string {
+	if c.Key == "T" {
+		return f.T
+	}
+	return f.S
+}
+
 // eval is the independent evaluator written from the operator table in database/query/README.md.
 func (c *Cond) eval(f Fields) bool {
 	switch c.Op {
@@ -205,13 +217,13 @@ func (c *Cond) eval(f Fields) bool {
 	case "f<=":
 		return f.F <= c.FVal
 	case "sameas":
-		return f.S == c.SVal
+		return c.strField(f) == c.SVal
 	case "contains":
-		return strings.Contains(f.S, c.SVal)
+		return strings.Contains(c.strField(f), c.SVal)
 	case "startswith":
-		return strings.HasPrefix(f.S, c.SVal)
+		return strings.HasPrefix(c.strField(f), c.SVal)
 	case "endswith":
-		return strings.HasSuffix(f.S, c.SVal)
+		return strings.HasSuffix(c.strField(f), c.SVal)
 	case "in":
 		for _, x := range c.List {
 			if x == f.S {
@@ -252,18 +264,20 @@ func nowUnix() int64 { return time.Now().Unix() }
 var nonceCounter int
 
 func newFields(rng func(int) int) Fields {
-	return Fields{S: strPool[rng(len(strPool))], I: intPool[rng(len(intPool))], F: floatPool[rng(len(floatPool))], B: rng(2) == 0, A: []string{strPool[rng(len(strPool))]}}
+	f := Fields{S: strPool[rng(len(strPool))], I: intPool[rng(len(intPool))], F: floatPool[rng(len(floatPool))], B: rng(2) == 0, A: []string{strPool[rng(len(strPool))]}}
+	f.T = strPool[(len(f.S)+int(f.I&3))%len(strPool)]
+	return f
 }
 
 // makeRecord builds a record object for a write: typed struct or JSON wrapper.
 func makeRecord(key, nonce string, f Fields, wrapped bool) record.Record {
 	full := dbName + ":" + key
 	if wrapped {
-		data, _ := json.Marshal(map[string]any{"N": nonce, "S": f.S, "I": f.I, "F": f.F, "B": f.B, "A": f.A})
+		data, _ := json.Marshal(map[string]any{"N": nonce, "S": f.S, "I": f.I, "F": f.F, "B": f.B, "A": f.A, "T": f.T})
 		w, _ := record.NewWrapper(full, &record.Meta{}, dsd.JSON, data)
 		return w
 	}
-	r := &Rec{N: nonce, S: f.S, I: f.I, F: f.F, B: f.B, A: f.A}
+	r := &Rec{N: nonce, S: f.S, I: f.I, F: f.F, B: f.B, A: f.A, T: NamedStr(f.T)}
 	r.SetKey(full)
 	r.CreateMeta()
 	return r
